@@ -69,7 +69,7 @@ def feature_programs(kskel, names=None):
             continue
         f = features.FEATURES[fname]
         for var in ps.V:
-            for sk in skels:
+            for sk in (skels if not f.get('alone') else [()]):
                 if not sk:
                     cands = [(('feat', fname, var),)]
                 else:
@@ -134,8 +134,8 @@ def feature_pairs():
     names = sorted(features.FEATURES)
     for f1 in names:
         for f2 in names:
-            if features.FEATURES[f1].get('toplevel') and features.FEATURES[f2].get('toplevel'):
-                pass
+            if features.FEATURES[f1].get('alone') or features.FEATURES[f2].get('alone'):
+                continue        # must be the first statement of the module
             yield (('bind', 'a'), ('bind', 'b'), ('feat', f1, 'a'), ('feat', f2, 'a'))
             yield (('feat', f1, 'a'), ('feat', f2, 'b'), ('use', 'a'), ('use', 'b'))
 
